@@ -15,7 +15,17 @@ ROOT = os.path.dirname(os.path.dirname(os.path.abspath(__file__)))
 LEAN = os.path.join(ROOT, "lean")
 HARNESS = os.path.join(ROOT, "harness")
 WORK = os.path.join(ROOT, "work")
-HBIN = os.path.join(HARNESS, "target", "release", "wp_harness")
+REPO = os.path.abspath(os.environ.get("WOODPILE_REPO", "/repo"))
+if REPO == "/repo":
+    TARGET = os.path.join(HARNESS, "target")
+    CARGO_EXTRA = []
+else:
+    # Scratch copy of the repository (for trying out changes without touching /repo):
+    # override the path dependencies and keep a separate target directory.
+    TARGET = os.path.join(WORK, "target-" + hashlib.blake2b(REPO.encode(), digest_size=4).hexdigest())
+    CARGO_EXTRA = ["--config", "paths=[%s]" % ",".join('"%s/%s"' % (REPO, c) for c in
+                   ("hcobs", "owning_iovec", "rough_tlv", "sliding_deque", "vouched_time"))]
+HBIN = os.path.join(TARGET, "release", "wp_harness")
 MBIN = os.path.join(LEAN, ".lake", "build", "bin", "wpmodel")
 STD_AXIOMS = {"propext", "Classical.choice", "Quot.sound"}
 FORBIDDEN = re.compile(r"\b(sorry|admit|native_decide|bv_decide|implemented_by|unsafe)\b|^\s*axiom\s|maxHeartbeats\s+0")
@@ -28,6 +38,8 @@ from specs import SPECS  # noqa: E402
 def env_offline():
     e = dict(os.environ)
     e["CARGO_NET_OFFLINE"] = "true"
+    e["CARGO_TARGET_DIR"] = TARGET
+    e["WOODPILE_REPO"] = REPO
     return e
 
 
@@ -215,7 +227,7 @@ def proof_side(pid, spec, tier, log):
 # --------------------------------------------------------------------------- implementation side
 
 def build_harness(log):
-    rc, out = run(["cargo", "build", "--release", "--offline"], cwd=HARNESS, timeout=3600)
+    rc, out = run(["cargo", "build", "--release", "--offline"] + CARGO_EXTRA, cwd=HARNESS, timeout=3600)
     log("cargo build rc=%d" % rc)
     return rc == 0 and os.path.exists(HBIN), out
 
